@@ -29,7 +29,6 @@ Record tcp_code := {
   t_get_lo : expr; t_get_hi : expr;          (* self._buffer[self._hsize:length] *)
   t_populate : list (string * string);       (* result.<attr> = self._header[<key>] *)
   t_wait : expr;                             (* elif self._header['len'] >= 2: break *)
-  t_errguard : expr;                         (* if self._header['len'] < 2: _process(error=True) *)
   t_errfc : expr;                            (* result.function_code < 0x80 *)
   t_skel : pskel;
   t_build_big : bool; t_build_fmt : list fmtc;     (* SOCKET_FRAME_HEADER *)
@@ -59,9 +58,9 @@ Definition tcp_skel_expected : pskel :=
   {| sk_loop := LWhileTrue;
      sk_body := [PIf PReady
                    [PIf PCheck
-                      [PIf PUnit [PProcess false] [PReset]]
+                      [PIf PUnit [PProcess false] [PAdvance]]
                       [PIf (PHdr "wait") [PBreak] [PReset]]]
-                   [PIf PBufNonEmpty [PIf (PHdr "errguard") [PProcess true] []] []; PBreak]] |}.
+                   [PBreak]] |}.
 
 Section WithCode.
 Variable B : base_code.
@@ -141,20 +140,13 @@ Fixpoint t_loop (fuel : nat) (units : list Z) (single : bool) (st : tstate) : ts
                 | (st2, _, Some e) => (st2, [], Exc e)
                 | (st2, None, None) => (st2, [], Done)      (* not produced by t_process *)
                 end
-            | Ok false => t_loop f units single (t_reset st1)
+            | Ok false => t_loop f units single (t_advance st1)
             end
         | Ok (st1, false) =>
             if beval (tenv st1) (t_wait C) then (st1, [], Done)
             else t_loop f units single (t_reset st1)
         end
-      else
-        if (0 <? Z.of_nat (length (t_buf st))) && beval (tenv st) (t_errguard C) then
-          match t_process st true with
-          | (st2, Some d, None) => (st2, [d], Done)
-          | (st2, _, Some e) => (st2, [], Exc e)
-          | (st2, None, None) => (st2, [], Done)
-          end
-        else (st, [], Done)
+      else (st, [], Done)         (* fewer than _hsize + 1 bytes: wait *)
   end.
 
 (* processIncomingPacket(data, callback, unit, single=...) *)
